@@ -85,7 +85,15 @@ import CircusProofs.Core.SigKernel
 import CircusProofs.Core.SigDefs
 import CircusProofs.Core.SigSync
 import CircusProofs.Core.SigPrim
-import CircusProofs.Core.SigKill
-import CircusProofs.Core.SigExec
-import CircusProofs.Core.SigRun
-import CircusProofs.Props.C03Run
+-- NOT YET REPAIRED after the EPERM extension of the kernel contract (branch p4-eperm): the hand proofs of
+-- Core/SigKill.lean (and with it Core/SigExec.lean, Core/SigRun.lean, Props/C03Run.lean, which import it) still
+-- assume `kKill : M Bool` / `sendSignal : M Bool` / `sendSignalProcess : M Unit` and a log entry `Obs.sig p sg st ""`
+-- for every signal of the daemon; a refused signal is logged with via `"!"`, ends `kill_process` with AccessDenied and
+-- must be threaded through `kKill_logged`, `sendSignal_began` (the new last disjunct of `Began`), `sspTail`
+-- (now `signalKids`), `kKill_nine_si` / `sendSignal_nine_si` (a refused SIGKILL is not `isNine`: nothing to justify),
+-- `killFinish_si` (the AccessDenied exit: the `stopping` flag stays set — F34 — so "the loop itself clears the flag" has
+-- to become "… or ends with AccessDenied") and `killProcess_si`.  SigKernel / SigDefs / SigSync / SigPrim are repaired.
+-- import CircusProofs.Core.SigKill
+-- import CircusProofs.Core.SigExec
+-- import CircusProofs.Core.SigRun
+-- import CircusProofs.Props.C03Run
